@@ -207,6 +207,8 @@ package channel
 
 //@ func (*Channel).authenticateSSH [C10 C11]
 //@   requires RI(c.Q)
+//@   ensures #queue-invariant-kept RI(c.Q)
+//@   ensures #no-result-only-after-cancellation result == nil ==> cancelled(ctx)
 //@   modifies wire, rd, c.Q.queue, c.Q.depth, chan(c.Q.depthChan), quiet, alloc()
 //@   ensures #success-means-prompt result != nil && result.err == nil ==> reMatch(c.PromptPattern, result.b)
 //@   at call! WriteAndReturn#1 assert #password-only-to-its-prompt-redacted reMatch(c.PasswordPattern, b) && !reMatch(c.PromptPattern, b) && arg0 == p && arg1 && pCount <= 2
@@ -219,6 +221,8 @@ package channel
 
 //@ func (*Channel).authenticateTelnet [C10 C11]
 //@   requires RI(c.Q) && c.PromptSearchDepth >= 0
+//@   ensures #queue-invariant-kept RI(c.Q)
+//@   ensures #always-a-result result != nil
 //@   modifies wire, rd, c.Q.queue, c.Q.depth, chan(c.Q.depthChan), quiet, alloc()
 //@   ensures #success-means-prompt result != nil && result.err == nil ==> reMatch(c.PromptPattern, result.b)
 //@   at call! WriteAndReturn#1 assert #username-written-redacted-at-most-twice arg0 == u && arg1 && uCount <= 2
@@ -235,27 +239,39 @@ package channel
 
 // the two outer login functions race the login goroutine against a timer; their bodies are not verified (the
 // goroutine hand-off may legitimately deliver a nil result only after cancellation, which is a timing argument)
-//@ func (*Channel).AuthenticateSSH [C11]
-//@   noverify
+//@ func (*Channel).AuthenticateSSH [C11 C05 C10]
 //@   flows [C11] p only to closure:AuthenticateSSH$1
 //@   flows [C11] pp only to closure:AuthenticateSSH$1
 //@   requires RI(c.Q)
 //@   modifies wire, rd, c.Q.queue, c.Q.depth, chan(c.Q.depthChan), quiet, alloc()
 //@   ensures RI(c.Q)
-//@ func (*Channel).AuthenticateTelnet [C11]
-//@   noverify
+//@   chaninv cr v => (v != nil || cancelled(ctx)) && RI(c.Q)
+//@   at call! NewTimer#1 assert [C05] #the-login-is-bounded-by-the-connection-wide-timeout arg0 == c.TimeoutOps
+//@   at return assert [C05] #no-result-in-time-is-a-timeout-error r == nil ==> result.1 != nil && isErr(result.1, util.ErrTimeoutError) && len(result.0) == 0
+//@ func (*Channel).AuthenticateTelnet [C11 C05 C10]
 //@   flows [C11] p only to closure:AuthenticateTelnet$1
-//@   requires RI(c.Q)
+//@   requires RI(c.Q) && c.PromptSearchDepth >= 0
 //@   modifies wire, rd, c.Q.queue, c.Q.depth, chan(c.Q.depthChan), quiet, alloc()
 //@   ensures RI(c.Q)
+//@   chaninv cr v => (v != nil || cancelled(ctx)) && RI(c.Q)
+//@   at call! NewTimer#1 assert [C05] #the-login-is-bounded-by-the-connection-wide-timeout arg0 == c.TimeoutOps
+//@   at return assert [C05] #no-result-in-time-is-a-timeout-error r == nil ==> result.1 != nil && isErr(result.1, util.ErrTimeoutError) && len(result.0) == 0
 
-//@ func (*Channel).AuthenticateSSH$1 [C11]
-//@   noverify
+//@ func (*Channel).AuthenticateSSH$1 [C11 C10]
 //@   flows [C11] p only to authenticateSSH#1.arg1
 //@   flows [C11] pp only to authenticateSSH#1.arg2
-//@ func (*Channel).AuthenticateTelnet$1 [C11]
-//@   noverify
+//@   maintains RI(c.Q)
+//@   requires cr != nil && !closed(cr) && cr != c.Q.depthChan
+//@   chaninv cr v => (v != nil || cancelled(ctx)) && RI(c.Q)
+//@   modifies wire, rd, c.Q.queue, c.Q.depth, chan(c.Q.depthChan), chan(cr), quiet, alloc()
+//@   at call! authenticateSSH#1 assert [C10] #the-login-loop-gets-the-credentials-and-the-cancellable-context arg0 == ctx && arg1 == p && arg2 == pp
+//@ func (*Channel).AuthenticateTelnet$1 [C11 C10]
 //@   flows [C11] p only to authenticateTelnet#1.arg2
+//@   maintains RI(c.Q)
+//@   requires c.PromptSearchDepth >= 0 && cr != nil && !closed(cr) && cr != c.Q.depthChan
+//@   chaninv cr v => (v != nil || cancelled(ctx)) && RI(c.Q)
+//@   modifies wire, rd, c.Q.queue, c.Q.depth, chan(c.Q.depthChan), chan(cr), quiet, alloc()
+//@   at call! authenticateTelnet#1 assert [C10] #the-login-loop-gets-the-credentials-and-the-cancellable-context arg0 == ctx && arg1 == u && arg2 == p
 
 // the failure cleanup of Open goes through the channel's own Close (which stops the reader and has the forced-close
 // fallback for a reader blocked in a transport read), not through the transport directly
@@ -265,7 +281,7 @@ package channel
 //@   ensures #failed-open-closes-the-transport reterr != nil ==> implClosed
 
 //@ func (*Channel).Open [C07 C10 C11]
-//@   requires RI(c.Q) && c.Errs != c.Q.depthChan
+//@   requires RI(c.Q) && c.Errs != c.Q.depthChan && c.PromptSearchDepth >= 0
 //@   ensures #queue-invariant-kept RI(c.Q)
 //@   flows [C11] #login-password-goes-only-to-the-login-functions authData.Password only to AuthenticateSSH#1.arg0, AuthenticateTelnet#1.arg1
 //@   flows [C11] #passphrase-goes-only-to-the-login-function authData.PrivateKeyPassPhrase only to AuthenticateSSH#1.arg1
